@@ -306,6 +306,9 @@ func (p *peer) act(c net.Conn, pc *peerCipher, b behaviour) bool {
 	case "closeInside":
 		ct := enc(frameBytes(b.items, true, now.Unix(), int32(now.Nanosecond())))
 		n := 32 * b.k
+		if b.k >= 100 {
+			n = b.k - 100 // a cut at any byte, inside a cipher block
+		}
 		if n >= len(ct) {
 			n = len(ct) - 1
 		}
